@@ -455,4 +455,148 @@ theorem parseStmts_tk (ss : PStmts) (w : WfSs ss) : parseStmts (tkSs ss) = some 
   simp only [List.append_nil] at this
   simp [parseStmts, this]
 
+/-! ## function definitions and programs -/
+
+def tkParamsTail : List Bytes → List Tok
+  | [] => [.p b!")"]
+  | x :: r => .p b!"," :: .id x :: tkParamsTail r
+
+def tkParams : List Bytes → List Tok
+  | [] => [.p b!")"]
+  | x :: r => .id x :: tkParamsTail r
+
+def tkTop : PTop → List Tok
+  | .func name ps body =>
+    tk name ++ (.p b!"=" :: .id b!"function" :: .p b!"(" :: (tkParams ps ++ .p b!"{" :: (tkSs body ++ [.p b!"}", .p b!";"])))
+  | .stmt s => tkS s
+
+def tkTops : List PTop → List Tok
+  | [] => []
+  | x :: r => tkTop x ++ tkTops r
+
+/-- a dotted name -/
+def isQ : PE → Bool
+  | .ident g => !isReserved g
+  | .member x _ => isQ x
+  | _ => false
+
+def WfTop : PTop → Prop
+  | .func name ps body => isQ name = true ∧ (∀ x ∈ ps, isReserved x = false) ∧ WfSs body
+  | .stmt s => WfS s ∧ closed s = true ∧ ∃ kw r, tkS s = .id kw :: r ∧ isReserved kw = true
+
+theorem qname_loop : ∀ (x : PE), isQ x = true → ∀ (rest : List Tok), qnameP (tk x ++ rest) = some (qnameTail x rest)
+  | .ident g, h, rest => by
+    simp only [isQ, Bool.not_eq_true'] at h
+    simp [tk, qnameP, h]
+  | .member x k, h, rest => by
+    simp only [isQ] at h
+    have := qname_loop x h (.p b!"." :: .id k :: rest)
+    simp only [tk, List.append_assoc, List.cons_append, List.nil_append]
+    rw [this]
+    conv => lhs; unfold qnameTail
+    simp
+  | .null, h, _ => by simp [isQ] at h
+  | .bool _, h, _ => by simp [isQ] at h
+  | .num _, h, _ => by simp [isQ] at h
+  | .str _, h, _ => by simp [isQ] at h
+  | .obj _, h, _ => by simp [isQ] at h
+  | .paren _, h, _ => by simp [isQ] at h
+  | .index _ _, h, _ => by simp [isQ] at h
+  | .call _ _, h, _ => by simp [isQ] at h
+  | .postInc _, h, _ => by simp [isQ] at h
+  | .unary _ _, h, _ => by simp [isQ] at h
+  | .bin _ _ _, h, _ => by simp [isQ] at h
+  | .cond _ _ _, h, _ => by simp [isQ] at h
+  | .assign _ _ _, h, _ => by simp [isQ] at h
+
+theorem qnameP_rt (x : PE) (h : isQ x = true) (rest : List Tok) :
+    qnameP (tk x ++ .p b!"=" :: rest) = some (x, .p b!"=" :: rest) := by
+  rw [qname_loop x h]
+  cases rest with
+  | nil => simp [qnameTail]
+  | cons t r =>
+    cases t <;> simp [qnameTail]
+
+theorem paramsTail_rt : ∀ (ps : List Bytes) (rest : List Tok), (∀ x ∈ ps, isReserved x = false) →
+    paramsTail (tkParamsTail ps ++ rest) = some (ps, rest)
+  | [], rest, _ => by
+    simp only [tkParamsTail, List.cons_append, List.nil_append]
+    unfold paramsTail
+    simp
+  | x :: r, rest, h => by
+    have ih := paramsTail_rt r rest (fun y hy => h y (List.mem_cons_of_mem _ hy))
+    simp only [tkParamsTail, List.cons_append]
+    unfold paramsTail
+    simp [h x (List.mem_cons_self ..), ih]
+
+theorem paramsP_rt (ps : List Bytes) (rest : List Tok) (h : ∀ x ∈ ps, isReserved x = false) :
+    paramsP (tkParams ps ++ rest) = some (ps, rest) := by
+  cases ps with
+  | nil => simp [tkParams, paramsP]
+  | cons x r =>
+    simp [tkParams, paramsP, h x (List.mem_cons_self ..), paramsTail_rt r rest (fun y hy => h y (List.mem_cons_of_mem _ hy))]
+
+theorem topN_rt (x : PTop) (w : WfTop x) (n : Nat) (hn : (tkTop x).length + 1 < n) (rest : List Tok) :
+    topN n (tkTop x ++ rest) = some (x, rest) := by
+  cases x with
+  | func name ps body =>
+    simp only [WfTop] at w
+    simp only [tkTop, List.length_append, List.length_cons] at hn
+    have hb := stmts_rt body w.2.2 n (by simp at hn; omega) (.p b!"}" :: .p b!";" :: rest) rfl
+    unfold topN
+    simp only [tkTop, List.append_assoc, List.cons_append, List.nil_append]
+    rw [qnameP_rt name w.1]
+    simp only [funcRest, eat_self, eatId_self, paramsP_rt ps _ w.2.1, hb]
+  | stmt s =>
+    simp only [WfTop] at w
+    obtain ⟨ws, hc, kw, r, hk, hr⟩ := w
+    have := stmt_rt s ws n (by simp only [tkTop] at hn; omega) rest (fun h => by rw [hc] at h; cases h)
+    unfold topN
+    simp only [tkTop]
+    rw [this]
+    simp [hk, qnameP, hr]
+
+theorem tkTop_pos (x : PTop) : 0 < (tkTop x).length := by
+  cases x with
+  | func name ps body => simp [tkTop]; omega
+  | stmt s => exact tkS_pos s
+
+theorem progN_rt (n : Nat) : ∀ (xs : List PTop) (k : Nat), (∀ x ∈ xs, WfTop x ∧ (tkTop x).length + 1 < n) → xs.length ≤ k →
+    progN n k (tkTops xs) = some xs
+  | [], k, _, _ => by cases k <;> rfl
+  | x :: r, k, h, hk => by
+    cases k with
+    | zero => simp at hk
+    | succ k =>
+      obtain ⟨w, hn⟩ := h x (List.mem_cons_self ..)
+      have ih := progN_rt n r k (fun y hy => h y (List.mem_cons_of_mem _ hy)) (by simpa using hk)
+      have ht := topN_rt x w n hn (tkTops r)
+      have hp := tkTop_pos x
+      cases hx : tkTop x with
+      | nil => rw [hx] at hp; simp at hp
+      | cons t ts =>
+        rw [hx] at ht
+        simp only [List.cons_append] at ht
+        simp only [tkTops, hx, List.cons_append, progN, ht, ih]
+
+theorem tkTops_len_le : ∀ (xs : List PTop) (x : PTop), x ∈ xs → (tkTop x).length ≤ (tkTops xs).length
+  | y :: r, x, h => by
+    simp only [tkTops, List.length_append]
+    rcases List.mem_cons.mp h with rfl | h
+    · omega
+    · have := tkTops_len_le r x h; omega
+
+theorem tkTops_count : ∀ (xs : List PTop), xs.length ≤ (tkTops xs).length
+  | [] => by simp [tkTops]
+  | x :: r => by
+    have := tkTops_count r
+    have := tkTop_pos x
+    simp only [tkTops, List.length_append, List.length_cons]
+    omega
+
+/-- the whole token list of a well-formed program -/
+theorem parseProgram_tk (xs : List PTop) (w : ∀ x ∈ xs, WfTop x) : parseProgram (tkTops xs) = some xs := by
+  unfold parseProgram
+  exact progN_rt _ xs _ (fun x hx => ⟨w x hx, by have := tkTops_len_le xs x hx; omega⟩) (tkTops_count xs)
+
 end SoyVerif.Lemmas.JsParseStmt
